@@ -86,6 +86,7 @@ func cmdCheck(args []string) int {
 	}
 	if !*updateClaims {
 		eng.localsBase = loadLocals(*verif)
+		eng.rangeKeyBase = loadRangeKeys(*verif)
 	}
 	kfs := loadKnownFindings(filepath.Join(*verif, "known_findings.json"))
 
@@ -200,6 +201,17 @@ func cmdCheck(args []string) int {
 			}
 		}
 		saveLocals(*verif, lb)
+		rk := loadRangeKeys(*verif)
+		for _, k := range order {
+			if own[k] {
+				if len(done[k].RangeKeys) > 0 {
+					rk[k] = done[k].RangeKeys
+				} else {
+					delete(rk, k)
+				}
+			}
+		}
+		saveRangeKeys(*verif, rk)
 		var names []string
 		// only obligations of functions that carry the property themselves are claimed: a callee
 		// that merely drops out of the dependency closure after a harmless edit is not an alarm
